@@ -56,13 +56,18 @@ func freeAddr() string {
 }
 
 type binCase struct {
-	hot, cold         int // number of hosts per tier
-	replicas, hotRepl int // flags (hotRepl 0 = unset)
+	hot, cold         int   // number of hosts per tier
+	replicas, hotRepl int   // flags (hotRepl 0 = unset)
 	down              []int // indexes into (hot hosts ++ cold hosts) that refuse
+	shared            bool  // the long-term tier lists the SAME hosts as the hot tier (cold == hot), grouped by --replicas
 }
 
 func (c binCase) String() string {
-	return fmt.Sprintf("binary hot=%d cold=%d replicas=%d hot-replicas=%d down=%s", c.hot, c.cold, c.replicas, c.hotRepl, vh.JoinInts(c.down))
+	sh := ""
+	if c.shared {
+		sh = " shared=1"
+	}
+	return fmt.Sprintf("binary hot=%d cold=%d replicas=%d hot-replicas=%d down=%s%s", c.hot, c.cold, c.replicas, c.hotRepl, vh.JoinInts(c.down), sh)
 }
 
 // groups: the documented replica sets
@@ -97,6 +102,9 @@ func buildBinary(repo string) (string, string) {
 // runBinary returns (acked, per-host accepted counts hot++cold, problem)
 func runBinary(bin string, c binCase) (bool, []int, string) {
 	n := c.hot + c.cold
+	if c.shared {
+		n = c.hot
+	}
 	stores := make([]*binStore, n)
 	addrs := make([]string, n)
 	var servers []*grpc.Server
@@ -125,7 +133,9 @@ func runBinary(bin string, c binCase) (bool, []int, string) {
 	httpAddr, grpcAddr, dbgAddr := freeAddr(), freeAddr(), freeAddr()
 	args := []string{"--mode=proxy", "--mapping=auto", "--addr=" + httpAddr, "--proxy-grpc-addr=" + grpcAddr, "--debug-addr=" + dbgAddr,
 		"--hot-stores=" + strings.Join(addrs[:c.hot], ","), fmt.Sprintf("--replicas=%d", c.replicas), "--bulk-shard-timeout=2s"}
-	if c.cold > 0 {
+	if c.shared {
+		args = append(args, "--write-stores="+strings.Join(addrs[:c.hot], ","))
+	} else if c.cold > 0 {
 		args = append(args, "--write-stores="+strings.Join(addrs[c.hot:], ","))
 	}
 	if c.hotRepl > 0 {
@@ -186,10 +196,12 @@ func binaryOracle(rep *vh.Report, o vh.Opts) {
 	}
 	defer os.RemoveAll(filepath.Dir(bin))
 	cases := []binCase{
-		{hot: 2, cold: 2, replicas: 2, hotRepl: 1},                   // hot {h0},{h1}; cold {c0,c1}
-		{hot: 2, cold: 2, replicas: 2, hotRepl: 1, down: []int{3}},   // one long-term replica down: must fail
-		{hot: 4, cold: 2, replicas: 1, hotRepl: 2, down: []int{1, 2}}, // hot {h0,h1},{h2,h3} both broken: must fail
-		{hot: 4, cold: 0, replicas: 2, down: []int{1}},               // hot {h0,h1} broken, {h2,h3} whole
+		{hot: 2, cold: 2, replicas: 2, hotRepl: 1},                               // hot {h0},{h1}; cold {c0,c1}
+		{hot: 2, cold: 2, replicas: 2, hotRepl: 1, down: []int{3}},               // one long-term replica down: must fail
+		{hot: 4, cold: 2, replicas: 1, hotRepl: 2, down: []int{1, 2}},            // hot {h0,h1},{h2,h3} both broken: must fail
+		{hot: 4, cold: 0, replicas: 2, down: []int{1}},                           // hot {h0,h1} broken, {h2,h3} whole
+		{hot: 2, cold: 2, replicas: 2, hotRepl: 1, down: []int{1}, shared: true}, // same two hosts: hot {h0},{h1}; long-term {h0,h1} broken: must fail
+		{hot: 2, cold: 0, replicas: 2, down: []int{1}},                           // --hot-replicas unset: hot {h0,h1} broken: must fail
 	}
 	if o.Thorough() {
 		cases = append(cases,
@@ -226,7 +238,11 @@ func binaryOracle(rep *vh.Report, o vh.Opts) {
 			return false
 		}
 		orc.Case(c.String(), c.hotRepl > 0 || len(c.down) > 0, "acked="+vh.B(acked))
-		if acked && (!full(0, c.hot, hr) || !full(c.hot, c.cold, c.replicas)) {
+		coldOff := c.hot
+		if c.shared {
+			coldOff = 0
+		}
+		if acked && (!full(0, c.hot, hr) || !full(coldOff, c.cold, c.replicas)) {
 			rep.Violate(vh.Violation{Site: "cmd/seq-db/seq-db.go:startProxy", Class: "ack-without-documented-replica-set", What: fmt.Sprintf("%s: acknowledged, per-host accepted bulks (hot then long-term) %v", c.String(), got), Replay: []string{c.String()}})
 		}
 	}
